@@ -246,10 +246,10 @@ def rule_strictness(ctx):
                            f"wmsg[{i}] ({name}) not validated as a str-keyed dict", fn.loc())
 
 
-def rule_envelope(ctx):
+def rule_envelope(ctx, rule_id="C08.4-envelope"):
     """Serializer.unserialize decided cell-wise: for every abstract shape of what the object serializer hands back (and every
     framing flag) the outcome is ProtocolError, or the messages parsed by the class registered for the type code, in order."""
-    ctx.rule("C08.4-envelope")
+    ctx.rule(rule_id)
     from ..core.tiny import Tiny, Sym, TinyRaise, Buf
     fn = ctx.program.func("autobahn.wamp.serializer.Serializer.unserialize")
     ctx.analysed(fn)
@@ -332,7 +332,7 @@ def rule_envelope(ctx):
         ctx.ob("a frame whose text/binary flag differs from the serializer's BINARY is a ProtocolError, a matching or unknown flag is not [6 cells]",
                len(prm) > 2 and not probs, "; ".join(probs[:2]) or "isBinary parameter missing", fn.loc())
     except AnalysisError as e:
-        raise AnalysisError(f"[C08.4-envelope] Serializer.unserialize outside the modelled subset: {e}")
+        raise AnalysisError(f"[{rule_id}] Serializer.unserialize outside the modelled subset: {e}")
     raises = [s_ for s_ in walk_no_defs(fn.node) if isinstance(s_, ast.Raise)]
     ctx.ob("unserialize raises ProtocolError only", all(isinstance(r.exc, ast.Call) and norm.text(r.exc.func) == "ProtocolError" for r in raises) and len(raises) >= 3,
            f"{[norm.text(r.exc)[:30] for r in raises]}", fn.loc())
